@@ -231,7 +231,7 @@ func Message(fn func()) {
 			return
 		}
 	}
-	attr := &expr.AttributeExpr{}
+	attr := &expr.AttributeExpr{Type: &expr.Object{}}
 	if eval.Execute(fn, attr) {
 		setter(attr)
 	}
